@@ -211,6 +211,7 @@ func (c *stringCache) lookup(key string) string {
 
 	c.mutex.Lock()
 	defer c.mutex.Unlock()
+	verifYield("in:cache-locked")
 
 	if item, found := c.data[key]; found && !item.isExpired() {
 		return item.value
@@ -218,6 +219,7 @@ func (c *stringCache) lookup(key string) string {
 
 	// Cache the result (even on error).
 	resolved := c.lookupFn(key)
+	verifYield("in:cache-before-store")
 	c.data[key] = stringItem{timeout: time.Now().Add(c.expiration), value: resolved}
 	return resolved
 }
